@@ -2184,8 +2184,12 @@ class Process:
         def cpu_affinity_set(self, cpus):
             try:
                 cext.proc_cpu_affinity_set(self.pid, cpus)
-            except (OSError, ValueError) as err:
-                if isinstance(err, ValueError) or err.errno == errno.EINVAL:
+            except (OSError, ValueError, OverflowError) as err:
+                # OverflowError: a CPU number that does not even fit a C long
+                if (
+                    isinstance(err, (ValueError, OverflowError))
+                    or err.errno == errno.EINVAL
+                ):
                     eligible_cpus = self._get_eligible_cpus()
                     all_cpus = tuple(range(len(per_cpu_times())))
                     for cpu in cpus:
